@@ -39,10 +39,19 @@ def shards(tier):
     out += [{"n": 4, "slice": [i, 16], "thin": 23 if tier == "quick" else 1} for i in range(16)]
     if tier != "quick":
         out += [{"n": 5, "slice": [i, 16], "thin": 97} for i in range(16)]
+    out.append({"n": 0, "high": True})
     return out
 
 
+HIGH_OFFSETS = [0x7FFF0000, 0x7FFFFC00, 0x80002000, 0x80010000, 0xC0000200, 0xFFFFE000]
+
+
 def run_shard(shard, ctx):
+    if shard.get("high"):
+        # data areas at and above 2 GiB / close to the top of the 32-bit offset field, in every order of three
+        for offs in itertools.permutations(HIGH_OFFSETS, 3):
+            run_case({"high": list(offs)}, ctx)
+        return
     n = shard["n"]
     for j, ks in enumerate(sliced(itertools.product(range(len(KINDS)), repeat=n), *shard["slice"])):
         if j % shard["thin"]:
@@ -64,9 +73,38 @@ def _data(i, size):
     return bytes((i * 31 + 7 + (b >> 3)) & 0xFF for b in range(size)) if size else b""
 
 
+def _case_high(case, ctx):
+    from dissect.hypervisor.util import vmtar
+
+    offs = case["high"]
+    members = [(f"big/m{i}", "visor", _data(i, (700, 513, 4097)[i % 3])) for i in range(len(offs))]
+    img = B.build_sparse(members, offs)
+    ctx.executions += 1
+    ctx.model(case)
+    ctx.sample(case)
+    ctx.outcome("visor")
+    ctx.nontrivial += 1
+    with ctx.watch(case):
+        try:
+            t = vmtar.open(fileobj=img.sparse(log=False))
+            got = t.getmembers()
+            bodies = [t.extractfile(m).read() for m in got]
+        except Exception as e:
+            ctx.violation(case, {"subject": "vmtar.high-offset", "kind": "exception", "exc": type(e).__name__},
+                          {"exception": repr(e)[:300]})
+            return
+        ctx.transitions += 1 + len(got)
+        ctx.states += 1 + len(got)
+        if [m.name for m in got] != [m[0] for m in members] or bodies != [m[2] for m in members]:
+            ctx.violation(case, {"subject": "vmtar.high-offset", "kind": "content-mismatch"},
+                          {"names": [m.name for m in got], "lens": [len(b) for b in bodies]})
+
+
 def run_case(case, ctx):
     from dissect.hypervisor.util import vmtar
 
+    if "high" in case:
+        return _case_high(case, ctx)
     ks = case["kinds"]
     members = []
     for i, k in enumerate(ks):
